@@ -641,8 +641,23 @@ func (node *TopNode) getParts(src *syntax.CallStm,
 				empty = nil
 				break
 			} else if _, ok := p.Id.(emptyFork); !ok {
-				empty = nil
-				break
+				// A fork which is empty in another dimension is never
+				// expanded any further.
+				if p.Id.IndexSource() != nil {
+					p = nil
+					for _, q := range fork.forkId {
+						if _, ok := q.Id.(emptyFork); ok {
+							p = q
+							break
+						}
+					}
+				} else {
+					p = nil
+				}
+				if p == nil {
+					empty = nil
+					break
+				}
 			}
 			empty = p
 		}
@@ -659,7 +674,20 @@ func (node *TopNode) getParts(src *syntax.CallStm,
 		// returned only once.
 		seen := make(map[ForkIdPart]struct{}, len(boundNode.forks))
 		for _, fork := range boundNode.forks {
-			if p, err := fork.forkId.matchPart(parts[0].Split.Call); err != nil {
+			p, err := fork.forkId.matchPart(parts[0].Split.Call)
+			if err != nil {
+				// The forks of a call which is mapped over the merged output
+				// of another mapped call are identified by that call.
+				if set, ok := parts[0].Split.Source.(*syntax.MapCallSet); ok {
+					for _, c := range node.wholeNodeCalls(set) {
+						if lp, lerr := fork.forkId.matchPart(c); lerr == nil {
+							p, err = lp, nil
+							break
+						}
+					}
+				}
+			}
+			if err != nil {
 				if parts[0].Split.Call == src {
 					errs = append(errs, &forkResolutionError{
 						Msg: "circular fork sources",
@@ -1030,8 +1058,14 @@ func (node *Node) matchFork(ref map[*syntax.CallStm]syntax.CollectionIndex,
 	}
 	matchedFork, err := fork.Match(ref, node.forkRoots)
 	if err != nil {
+		if lref := node.lockstepIndices(ref, fork); lref != nil {
+			matchedFork, err = fork.Match(lref, node.forkRoots)
+		}
+	}
+	if err != nil {
 		return nil, err
 	}
+	matchedFork = node.lockstepParts(matchedFork)
 	for i, id := range node.forkIds.List {
 		if id.Matches(matchedFork) {
 			return node.forks[i], nil
@@ -1040,6 +1074,186 @@ func (node *Node) matchFork(ref map[*syntax.CallStm]syntax.CollectionIndex,
 	return nil, fmt.Errorf(
 		"unresolved fork %s (from %s): no matches out of %d possible forks",
 		matchedFork.GoString(), fork.GoString(), len(node.forkRoots))
+}
+
+// lockstepIndices completes the indices bound in a reference to this node for
+// those of its fork roots for which the given fork ID has no part but does
+// have a part for a call that is mapped over the merged output of that root
+// (`map call B(x = split A.out)`): B iterates in lockstep with A, so the
+// index is the same.  Returns nil if nothing could be added.
+func (node *Node) lockstepIndices(ref map[*syntax.CallStm]syntax.CollectionIndex,
+	fork ForkId) map[*syntax.CallStm]syntax.CollectionIndex {
+	var result map[*syntax.CallStm]syntax.CollectionIndex
+	for _, root := range node.call.ForkRoots() {
+		call := root.Call()
+		if i := ref[call]; i != nil && i.IndexSource() == nil {
+			continue
+		}
+		if _, err := fork.matchPart(call); err == nil {
+			continue
+		}
+		fqid := root.GetFqid()
+		// The other way around: this root is itself mapped over the merged
+		// output of another root, for which the fork has a part.
+		if sp := root.Split(); sp != nil {
+			if set, ok := sp.Source.(*syntax.MapCallSet); ok {
+				for _, otherCall := range node.top.wholeNodeCalls(set) {
+					if otherCall == call {
+						continue
+					}
+					if p, err := fork.matchPart(otherCall); err == nil &&
+						p.Id.IndexSource() == nil {
+						if result == nil {
+							result = make(map[*syntax.CallStm]syntax.CollectionIndex,
+								len(ref)+1)
+							for k, v := range ref {
+								result[k] = v
+							}
+						}
+						result[call] = p.Id
+						break
+					}
+				}
+				if result != nil && result[call] != nil &&
+					result[call].IndexSource() == nil {
+					continue
+				}
+			}
+		}
+		for _, part := range fork {
+			if part.Split == nil || part.Id.IndexSource() != nil {
+				continue
+			}
+			set, ok := part.Split.Source.(*syntax.MapCallSet)
+			if !ok {
+				continue
+			}
+			found := false
+			for _, src := range set.Sources {
+				switch src := src.(type) {
+				case *syntax.BoundReference:
+					found = src.Exp != nil && src.Exp.Id == fqid &&
+						src.Exp.OutputId == ""
+				case *syntax.RefExp:
+					found = src.Id == fqid && src.OutputId == ""
+				}
+				if found {
+					break
+				}
+			}
+			if found {
+				if result == nil {
+					result = make(map[*syntax.CallStm]syntax.CollectionIndex,
+						len(ref)+1)
+					for k, v := range ref {
+						result[k] = v
+					}
+				}
+				result[call] = part.Id
+				break
+			}
+		}
+	}
+	return result
+}
+
+// lockstepParts adds, for every determined part of the given fork ID whose
+// call does not appear in this node's fork IDs, a part with the same index for
+// the call which does appear there in its place: the forks of a call that is
+// mapped over the merged output of another mapped call are identified by that
+// other call (see Fork.expandForkFromRef).
+func (node *Node) lockstepParts(id ForkId) ForkId {
+	if len(node.forkIds.List) == 0 || len(id) == 0 {
+		return id
+	}
+	have := func(call *syntax.CallStm) bool {
+		for _, part := range node.forkIds.List[0] {
+			if part.Split != nil && part.Split.Call == call {
+				return true
+			}
+		}
+		return false
+	}
+	result := id
+	for _, part := range id {
+		if part == nil || part.Split == nil || part.Id.IndexSource() != nil ||
+			have(part.Split.Call) {
+			continue
+		}
+		for _, root := range node.call.ForkRoots() {
+			if root.Call() != part.Split.Call {
+				continue
+			}
+			sp := root.Split()
+			if sp == nil {
+				break
+			}
+			set, ok := sp.Source.(*syntax.MapCallSet)
+			if !ok {
+				break
+			}
+			for _, c := range node.top.wholeNodeCalls(set) {
+				if c != part.Split.Call && have(c) {
+					if len(result) == len(id) {
+						result = append(make(ForkId, 0, len(id)+1), id...)
+					}
+					result = append(result, &ForkSourcePart{
+						Id:    part.Id,
+						Range: part.Range,
+						Split: &syntax.SplitExp{
+							Value:  &syntax.MergeExp{MergeOver: c},
+							Call:   c,
+							Source: c,
+						},
+					})
+					break
+				}
+			}
+			break
+		}
+	}
+	return result
+}
+
+// wholeNodeCalls returns the calls of the nodes whose whole (merged) output is
+// one of the sources in the set, i.e. the calls with which a call that has
+// this set as its source iterates in lockstep.
+func (node *TopNode) wholeNodeCalls(set *syntax.MapCallSet) []*syntax.CallStm {
+	var result []*syntax.CallStm
+	for _, src := range set.Sources {
+		var ref *syntax.RefExp
+		switch src := src.(type) {
+		case *syntax.BoundReference:
+			ref = src.Exp
+		case *syntax.RefExp:
+			ref = src
+		}
+		if ref == nil || ref.OutputId != "" {
+			continue
+		}
+		if n := node.allNodes[ref.Id]; n != nil {
+			result = append(result, n.call.Call())
+		}
+	}
+	return result
+}
+
+// setRefersTo returns true if the set of sources contains the whole output of
+// the node with the given ID.
+func setRefersTo(set *syntax.MapCallSet, fqid string) bool {
+	for _, src := range set.Sources {
+		switch src := src.(type) {
+		case *syntax.BoundReference:
+			if src.Exp != nil && src.Exp.Id == fqid && src.Exp.OutputId == "" {
+				return true
+			}
+		case *syntax.RefExp:
+			if src.Id == fqid && src.OutputId == "" {
+				return true
+			}
+		}
+	}
+	return false
 }
 
 // Find all of the forks for which the given fork could match a more-constrained
